@@ -83,7 +83,7 @@ def second(c):
         f = {"affine": lambda x: c["a"] * x + c["b"], "cube": lambda x: x**3, "half": lambda x: x / 2 + Fraction(1, 3),
              "exp": lambda x: Fraction(math.exp(float(x) / 8))}[c["tf"]]
         return p, [[f(v) if k == j else v for k, v in enumerate(r)] for r in m], float
-    return p, m, np.int64
+    return p, m, [np.int64, np.uint8, np.uint64, np.float32, np.int32][(len(c["distr"]) + len(c["p"]) + sum(map(len, c["p"]))) % 5]
 
 
 def run(c):
